@@ -151,6 +151,9 @@ def hist_strategy(tier):
         "ops": st.lists(HOP, min_size=2, max_size=25),
         # duplicates scenario: the first expression goes through root.children, which starts as [x, x, y]
         "dups": st.sampled_from([None, None, True, False]),
+        # the second plain handler is a CLOSURE over the observed root (object -> trait -> notifier -> handler -> object:
+        # a reference cycle that only the cyclic collector can reclaim, and only if it is shown every edge)
+        "closure_root": st.sampled_from([False, False, True]),
     })
 
 
@@ -190,6 +193,10 @@ def hist_run(case, ctx):
     log = []
     owner = Owner(log)
     handlers = [lambda e: log.append("f0"), lambda e: log.append("f1"), owner.meth]
+    closure_root = bool(case.get("closure_root"))
+    if closure_root:
+        handlers[1] = (lambda r: (lambda e: (log.append("f1"), r)[0]))(root)
+        ctx.label("handler-closes-over-root")
     tags = ["f0", "f1", "m"]
     counts = {}          # (handler index, canonical expression text) -> live registrations
     base = population(pool)
@@ -453,8 +460,22 @@ def hist_run(case, ctx):
                         # F49: what is left sits only on the `<name>_items` companion of a container trait added later
                         sig = "/items-companion" if all(kk[1] == "xlist_items" for kk in diff_) else ""
                         ctx.fail("balance/populations" + sig, "all registrations removed but notifier populations differ: %r" % diff_)
+        # ---- a handler that itself refers to the root: everything is garbage once the harness lets go of the whole graph,
+        #      and the cyclic collector must be able to see that (nothing may be hidden from its traversal)
+        if closure_root and any(c > 0 for kk, c in counts.items() if kk[0] == 1):
+            w = weakref.ref(root)
+            del pool[:]
+            del handlers[:]
+            root = n = r = x = c = h = link = owner = None
+            gc.collect()
+            if w() is not None:
+                ctx.fail("weak/cycle-through-handler", "a root observed by a closure that refers to it is never collected, although "
+                         "nothing outside the cycle refers to it (counts %r)" % {kk: v for kk, v in counts.items() if v})
+            ctx.label("root-with-closure-collected")
+            interesting = True
+            counts = {}
         # ---- weakness of the observed object: drop the root, keep downstream objects alive
-        if not self_referential(root, exprs) and any(c > 0 for c in counts.values()):
+        if root is not None and not self_referential(root, exprs) and any(c > 0 for c in counts.values()):
             others = pool[1:]
             holders = []
             for n in others:
@@ -465,6 +486,8 @@ def hist_run(case, ctx):
             if not holders:
                 w = weakref.ref(root)
                 pool[0] = None
+                if closure_root:
+                    handlers[1] = None          # (the harness's own reference to the closure that refers to the root)
                 # drop every harness-held local that may refer to the root
                 root = n = r = x = c = h = holders = vals = live = None
                 gc.collect()
